@@ -126,6 +126,42 @@ func c02Scenarios(tier string) []*Scenario {
 			}
 		}
 	}
+	// a restart request that arrives while the process waits out its back-off: the new command is still not
+	// launched sooner than backoff_seconds after the exit of the old one
+	for _, pol := range []string{"always", "on_failure"} {
+		for _, bo := range []int{2, 3} {
+			pol, bo := pol, bo
+			sc := &Scenario{
+				ID:         fmt.Sprintf("c02-restart-request-in-backoff-%s-bo%d", pol, bo),
+				YAML:       projectYAML(nil, PC{Name: "a", Restart: pol, Backoff: bo}),
+				Procs:      map[string]*ProcScript{"a": {Launches: append(exits(1), []Action{})}},
+				K:          k,
+				TickBudget: bo + 2,
+			}
+			restarting := func(w *World) bool { return w.lastStat["a"] == "Restarting" }
+			sc.API = [][]APICall{{{Op: "restart", Name: "a", When: restarting}}}
+			sc.Check = func(w *World) []Violation {
+				var vs []Violation
+				tr := w.pre()
+				lastExit := time.Duration(-1)
+				for _, e := range tr {
+					if e.Proc != "a#0" {
+						continue
+					}
+					switch e.Kind {
+					case "exit":
+						lastExit = e.T
+					case "start":
+						if lastExit >= 0 && e.T-lastExit < time.Duration(bo)*time.Second {
+							vs = append(vs, viol("C02", "gap-too-short:restart-request", "command launched %v after the exit of the previous one, back-off %ds (a restart request arrived in between)", e.T-lastExit, bo))
+						}
+					}
+				}
+				return vs
+			}
+			scs = append(scs, sc)
+		}
+	}
 	// default (unordered) shutdown with a sibling that is slow to stop (ignores SIGTERM, killed after 3 s): the
 	// processes are stopped one after the other in map order; a may exit by itself while the shutdown is
 	// busy with the sibling
